@@ -29,7 +29,7 @@ func c07roots(in *cons.Inst, upTo idx.Frame) string {
 }
 
 func runC07(c *ev.Ctx) {
-	c.Rule = "valid multi-epoch streams (generator of C01: forks <1/3, lag, sleeper regime, seals). Two instances with the default-size forkless-cause cache process the same stream; the dirty one additionally gets, at seeded points, bursts of 1..40 Builds (self-parent only, parent subsets, full candidate, other creators' candidates; one burst of >=256 per run) and failing Process calls of clones with fresh IDs and a wrong claimed frame (0, too high by 1/2/100, below the self-parent's frame) - preferably clones of events that would have been roots. " +
+	c.Rule = "valid multi-epoch streams (generator of C01: forks <1/3, lag, sleeper regime, seals). Two instances with the default-size forkless-cause cache process the same stream; the dirty one additionally gets, at seeded points, bursts of 1..40 Builds (self-parent only, parent subsets, full candidate, other creators' candidates; one burst of >=256 per run) and failing Process calls of clones with fresh IDs and a wrong claimed frame (0, too high by 1/2/100, below the self-parent's frame) - preferably clones of events that would have been roots - and resubmissions of recently ACCEPTED events under their own ID with claimed frame 0 or far too high. " +
 		"Oracle: every later valid event gets the same Process result on both; candidates built on BOTH instances at common points get the same frame; newly emitted blocks are identical after every event; GetFrameRoots(f) is identical (as a set) for all frames after every 10th event and at the end and never contains a rejected event; epochs, validators and decided frames agree. " +
 		"non-trivial = distinct (run) with >=1 rejected root candidate and >=1 block decided afterwards"
 	c.Assumptions = []string{"the application does not store rejected events (the harness removes them from its event source)", "cheaters < 1/3"}
@@ -59,6 +59,8 @@ func runC07(c *ev.Ctx) {
 		bigBurstAt := r.Intn(d.NumEvents() + 1)
 		n := 0
 		builds, fails := 0, 0
+		resubmitted := 0
+		_ = resubmitted
 		for _, ed := range d.Epochs {
 			plan := ed.Plan
 			byID := map[hash.Event]*cons.Ev{}
@@ -164,6 +166,27 @@ func runC07(c *ev.Ctx) {
 							rejectedRoots++
 						}
 					}
+				}
+				// ---- dirt: an event that was accepted earlier is submitted again with a wrong claimed frame (same ID)
+				if len(known) > 0 && r.Intn(6) == 0 {
+					old := known[len(known)-1-r.Intn(minI(len(known), 12))]
+					dup := old.Clone()
+					dup.SetFrame([]idx.Frame{0, old.Frame() + 40, old.Frame() + 100}[r.Intn(3)]) // never a frame that the event could claim even as its own root
+					nb := len(dirty.Blocks)
+					perr := dirty.ProcessNoStore(dup)
+					if perr == nil || dirty.Crit != nil {
+						c.Count("other_property_discrepancy_wrong-frame-accepted-or-crit", 1)
+						return
+					}
+					if len(dirty.Blocks) != nb {
+						m := desc()
+						m["event"] = old.Name
+						c.Violation("failed-process-emitted-a-block", m)
+						return
+					}
+					fails++
+					resubmitted++
+					c.Count("accepted_events_resubmitted_with_a_wrong_frame", 1)
 				}
 				// ---- common build
 				if (r.Intn(4) == 0 && !(firstBurstRun && n < bigBurstAt)) || K >= 255 {
